@@ -78,6 +78,11 @@ def menu(ctx):
     for t in types:
         for n, uid in (("d", False), ("a", False), ("a", True), ("9x", False)):
             ops.append(("add", n, t, None, None, uid))
+    # illegal types that are "almost" supported: wrong case, the ints 0/1 instead of the strings
+    for t in (["AND", 1] if q else ["AND", "Input", "Bb_Output", 0, 1]):
+        ops.append(("add", "d", t, None, None, False))
+        ops.append(("add", "d", t, "a", "b", False))
+        ops.append(("add", "a", t, None, None, True))
     fis = [None, "a", ["a", "b"], ["a", "a"], ["d"], ["zz"]]
     fos = [None, "b", ["b", "bb.i"], ["zz"]] if q else [None, "b", ["b", "c"], ["b", "bb.i"], ["zz"], ["d"]]
     for t in (["and", "buf", "input", "bb_output"] if q else ["and", "nor", "buf", "not", "input", "1", "bb_input", "bb_output"]):
